@@ -13,11 +13,12 @@ type runner func(a *args) error
 var runners = map[string]runner{}
 
 type args struct {
-	seed   uint64
-	n      int
-	out    string
-	tier   string
-	replay string
+	seed    uint64
+	n       int
+	out     string
+	tier    string
+	replay  string
+	isolate bool // run every case in a child process (used after an in-process run crashed)
 }
 
 func main() {
@@ -33,6 +34,7 @@ func main() {
 	fs.StringVar(&a.out, "out", ".", "output directory")
 	fs.StringVar(&a.tier, "tier", "quick", "tier")
 	fs.StringVar(&a.replay, "replay", "", "replay file")
+	fs.BoolVar(&a.isolate, "isolate", false, "one child process per case")
 	fs.Parse(os.Args[2:])
 	r, ok := runners[id]
 	if !ok {
